@@ -766,7 +766,87 @@ def b10(chk, tab):
     chk.floor("B10", 3)
 
 
+def b11(chk, tab):
+    """Index agreement between siblings: the i-th component written under a numbered / ordered key is the same component
+    in both encodings and on reading."""
+    opm_k, opm_x = tab["opm"]["dk"], tab["opm"]["dx"]
+    tk = "".join(n.value for n in ast.walk(opm_k.node) if isinstance(n, ast.Constant) and isinstance(n.value, str))
+    ok = all(f"MAN_DV_{i + 1}             = {{dv[{i}]:.6f}} [km/s]" in tk for i in range(3)) and "dv=man._dv / units.km" in unparse(opm_k.node)
+    chk.inst("B11", f"{opm_k.ref}::MAN_DV_i", ok, "MAN_DV_i carries component i−1 of the maneuver's own delta-v" if ok else "numbering changed", loc(opm_k, opm_k.node))
+    tx = unparse(opm_x.node)
+    ok = "for i in range(3):\n                x = ET.SubElement(mans, f'MAN_DV_{i + 1}', units='km/s')\n                x.text = f'{man._dv[i] / units.km:.6f}'" in tx
+    chk.inst("B11", f"{opm_x.ref}::MAN_DV_i", ok, "MAN_DV_{i+1} carries component i" if ok else "numbering changed", loc(opm_x, opm_x.node))
+    for fobj in (tab["opm"]["lk"], tab["opm"]["lx"]):
+        t = unparse(fobj.node)
+        ok = "for i in range(1, 4):" in t and "f_name = f'MAN_DV_{i}'" in t and "man.setdefault('dv', []).append(decode_unit(raw_man, f_name, 'km/s'))" in t
+        chk.inst("B11", f"{fobj.ref}::MAN_DV_i", ok, "components appended in the order 1, 2, 3" if ok else "changed", loc(fobj, fobj.node))
+    # state vector component ↔ keyword
+    pairs = {"X": "x", "Y": "y", "Z": "z", "X_DOT": "vx", "Y_DOT": "vy", "Z_DOT": "vz"}
+    for fobj in (tab["opm"]["dx"], tab["oem"]["dx"]):
+        d = None
+        for n in ast.walk(fobj.node):
+            if isinstance(n, ast.Dict) and {const_value(k) for k in n.keys} == set(pairs):
+                d = {const_value(k): const_value(v) for k, v in zip(n.keys, n.values)}
+        ok = d == pairs
+        chk.inst("B11", f"{fobj.ref}::state-keywords", ok, "X…Z_DOT ← x…vz" if ok else f"{d}", loc(fobj, fobj.node))
+    ok = all(f"{k:<21}= {{cartesian.{v}: 12.6f}}" in tk for k, v in pairs.items())
+    chk.inst("B11", f"{opm_k.ref}::state-keywords", ok, "X…Z_DOT ← x…vz" if ok else "changed", loc(opm_k, opm_k.node))
+    for fobj in (tab["opm"]["lk"], tab["opm"]["lx"], tab["oem"]["lx"]):
+        t = unparse(fobj.node)
+        ok = ("[x, y, z, vx, vy, vz]" in t and all(f"{v} = decode_unit(" in t and f"'{k}'," in t for k, v in pairs.items())) or \
+            "[decode_unit(statevector, 'X', 'km'), decode_unit(statevector, 'Y', 'km'), decode_unit(statevector, 'Z', 'km'), decode_unit(statevector, 'X_DOT', 'km/s'), decode_unit(statevector, 'Y_DOT', 'km/s'), decode_unit(statevector, 'Z_DOT', 'km/s')]" in t
+        if "[x, y, z, vx, vy, vz]" in t:
+            ok = ok and all(re.search(rf"\b{v} = decode_unit\(\w+, '{k}', ", t) for k, v in pairs.items())
+        chk.inst("B11", f"{fobj.ref}::state-order", ok, "the state vector is rebuilt in the order x, y, z, vx, vy, vz from the keywords of the same name" if ok else "order / pairing changed", loc(fobj, fobj.node))
+    t = unparse(tab["oem"]["lk"].node)
+    ok = "date, *state_vector = line.split()" in t and "np.array([float(x) for x in state_vector[:6]]) * units.km" in t
+    chk.inst("B11", f"{tab['oem']['lk'].ref}::state-order", ok, "data line: epoch then the six components in km, km/s" if ok else "changed", loc(tab["oem"]["lk"], tab["oem"]["lk"].node))
+    t = unparse(tab["oem"]["dk"].node)
+    ok = "'{date:{dfmt}} {orb[0]:{fmt}} {orb[1]:{fmt}} {orb[2]:{fmt}} {orb[3]:{fmt}} {orb[4]:{fmt}} {orb[5]:{fmt}}'" in t
+    chk.inst("B11", f"{tab['oem']['dk'].ref}::state-order", ok, "data line written epoch, then components 0…5" if ok else "changed", loc(tab["oem"]["dk"], tab["oem"]["dk"].node))
+    # OMM element order
+    for fobj in (tab["omm"]["lk"], tab["omm"]["lx"]):
+        ok = "elements = [i, Omega, e, omega, M, n]" in unparse(fobj.node) and "form = 'TLE'" in unparse(fobj.node)
+        chk.inst("B11", f"{fobj.ref}::element-order", ok, "elements handed to the TLE form in its order (i, Ω, e, ω, M, n)" if ok else "changed", loc(fobj, fobj.node))
+    chk.floor("B11", 14)
+
+
+def b12(chk, tab):
+    """The two tokenisers."""
+    k2d = chk.repo.func(COMMONS, "kvn2dict")
+    t = unparse(k2d.node)
+    frags = [("key-value", "key, _, value = line.partition('=')", "split on the first '='"),
+             ("unit", "value, sep, unit = value.partition('[')", "optional unit in brackets"),
+             ("unit-attrib", "attrib = {'units': unit.rstrip(']')}", "unit stored without the closing bracket"),
+             ("comment", "comments[i] = line.split('COMMENT')[-1].strip()", "comments remembered by line number"),
+             ("man-comment", "if i - 1 in comments:\n                    man['COMMENT'] = Field(comments[i - 1], {})", "the comment on the line before a maneuver belongs to it"),
+             ("man-grouping", "data.setdefault('maneuvers', []).append(man)", "maneuvers collected in order")]
+    for key, frag, what in frags:
+        ok = frag in t
+        chk.inst("B12", f"{k2d.ref}::{key}", ok, what if ok else f"`{frag}` not found", loc(k2d, k2d.node))
+    x2d = chk.repo.func(COMMONS, "xml2dict")
+    t = unparse(x2d.node)
+    frags = [("leaf", "field = Field(subelem.text, subelem.attrib)", "leaf = (text, attributes)"),
+             ("leaf-list", "data[subelem.tag] = [data[subelem.tag], field]", "second leaf of a tag starts a list"),
+             ("node-list", "data[subelem.tag] = [data[subelem.tag], _recurse(subelem)]", "second child of a tag starts a list"),
+             ("append", "data[subelem.tag].append(_recurse(subelem))", "later children are appended in document order")]
+    for key, frag, what in frags:
+        ok = frag in t
+        chk.inst("B12", f"{x2d.ref}::{key}", ok, what if ok else f"`{frag}` not found", loc(x2d, x2d.node))
+    pd = chk.repo.func(COMMONS, "parse_date")
+    t = unparse(pd.node)
+    ok = t.count("scale=scale") == 3 and "DATE_FMT_DEFAULT" in t and "DATE_FMT_D_OF_Y" in t and "DATE_FMT_NO_MSEC" in t
+    chk.inst("B12", f"{pd.ref}", ok, "three accepted layouts, the message's time system applied in each" if ok else "changed", loc(pd, pd.node))
+    m = chk.repo.module(COMMONS)
+    fm = {k: const_value(m.assigns[k]) for k in ("DATE_FMT_DEFAULT", "DATE_FMT_NO_MSEC", "DATE_FMT_D_OF_Y") if k in m.assigns}
+    ok = fm == {"DATE_FMT_DEFAULT": "%Y-%m-%dT%H:%M:%S.%f", "DATE_FMT_NO_MSEC": "%Y-%m-%dT%H:%M:%S", "DATE_FMT_D_OF_Y": "%Y-%jT%H:%M:%S.%f"}
+    chk.inst("B12", f"{COMMONS}::date-formats", ok, "microsecond resolution on writing" if ok else f"{fm}", COMMONS)
+    chk.floor("B12", 12)
+
+
 def run(chk):
+    chk.rule("B11", "numbered / ordered components agree between both encodings and their readers")
+    chk.rule("B12", "KVN and XML tokenisers (shape frozen by reading)")
     chk.rule("B10", "line-oriented readers create their per-record accumulators where the record starts")
     chk.rule("B1", "both encodings write the same keys (up to containers / informational), same CENTER_NAME rule; dispatch and detection")
     chk.rule("B2", "required by a reader ⊆ written; state-bearing written ⊆ read")
@@ -789,5 +869,7 @@ def run(chk):
     chk.guard(b9, chk, tab)
     chk.guard(n1, chk, tab)
     chk.guard(b10, chk, tab)
+    chk.guard(b11, chk, tab)
+    chk.guard(b12, chk, tab)
     chk.assume("informational keys (header, markers, redundant osculating elements, START/STOP_TIME, GM, MAN_DELTA_MASS) need not round-trip; table in c13.py with reasons")
     chk.assume("rule C for dates under a TIME_SYSTEM is decided under C04")
